@@ -494,6 +494,11 @@ func genC01(b *builder) {
 func genC02(b *builder) {
 	r := b.r
 	b.base(baseOpt{minCtl: 1, maxCtl: 3, maxClients: 2})
+	var z *zoneGen
+	if r.Intn(8) == 0 {
+		// the reading of a reply does not depend on the process zone
+		z = b.drawZone()
+	}
 	tk := engine.Task{}
 	ns := 1 + b.n(6)
 	for s := 0; s < ns; s++ {
@@ -510,6 +515,16 @@ func genC02(b *builder) {
 			o.V19 = true
 		}
 		st := b.callStep(client, op, a, known, b.early(T), o)
+		if z != nil && !o.OOD && r.Intn(2) == 0 {
+			for i := range st.Plan.Emits {
+				d := st.Plan.Emits[i].Data
+				echo := append([]byte(nil), d[8:12]...)
+				z.fix(op, d)
+				if op == model.GetCardByID {
+					copy(d[8:12], echo)
+				}
+			}
+		}
 		tk.Steps = append(tk.Steps, st)
 	}
 	b.sc.Tasks = append(b.sc.Tasks, tk)
@@ -766,6 +781,25 @@ func genC09(b *builder) {
 		for s := 0; s < ns; s++ {
 			client := r.Intn(len(sc.Clients))
 			T := sc.Clients[client].Timeout
+			if !queued && r.Intn(8) == 0 {
+				// the event listener in the history: started and stopped, or unable to start (port held by
+				// another process, no listen port configured)
+				ls := b.listenStep(client)
+				if len(ls.Feed) > 6 {
+					ls.Feed = ls.Feed[:6]
+				}
+				ls.Holds = nil // a callback of the application that is still running when Listen returns is not the library's goroutine to end
+				switch r.Intn(4) {
+				case 0:
+					if ap, err := netip.ParseAddrPort(sc.Clients[client].Listen); err == nil {
+						sc.Foreign = append(sc.Foreign, vnet.ForeignPort{Proto: "udp", Port: ap.Port()})
+					}
+				case 1:
+					sc.Clients[client].Listen = ""
+				}
+				tk.Steps = append(tk.Steps, ls)
+				continue
+			}
 			op := b.anyOp()
 			serial, known := b.target()
 			a := model.GenArgs(r, op, serial)
@@ -1030,11 +1064,26 @@ func genC17(b *builder) {
 			tk.Steps = append(tk.Steps, engine.Step{Kind: "mutate-config", Client: 1})
 		}
 	}
+	listening := map[int]bool{}
+	var t2 engine.Task // listeners run beside the history
 	ns := 1 + b.n(6)
 	for s := 0; s < ns; s++ {
 		client := r.Intn(len(sc.Clients))
 		T := sc.Clients[client].Timeout
-		switch r.Intn(7) {
+		switch r.Intn(8) {
+		case 7:
+			// a burst of events while the callback of an earlier one is still running: every status must carry its own datagram
+			if sc.Clients[client].Listen != "" && !listening[client] {
+				listening[client] = true
+				ls := b.listenStep(client)
+				for i := range ls.Feed {
+					if r.Intn(2) == 0 && i > 0 {
+						ls.Feed[i].After = ls.Feed[i-1].After
+					}
+				}
+				t2.Steps = append(t2.Steps, ls)
+			}
+			continue
 		case 0:
 			tk.Steps = append(tk.Steps, engine.Step{Kind: "mutate-devlist", Client: client, Delay: time.Duration(r.Intn(2))})
 			continue
@@ -1061,6 +1110,9 @@ func genC17(b *builder) {
 		tk.Steps = append(tk.Steps, st)
 	}
 	sc.Tasks = append(sc.Tasks, tk)
+	if len(t2.Steps) > 0 {
+		sc.Tasks = append(sc.Tasks, t2)
+	}
 }
 
 // ---- C04: nothing crashes ---------------------------------------------------------------------------
@@ -1252,6 +1304,23 @@ type zoneGen struct {
 	name string
 	loc  *time.Location
 	days []zones.Day
+}
+
+// drawZone gives the run a process time zone (half of the time one in which some local midnights are missing).
+func (b *builder) drawZone() *zoneGen {
+	r := b.r
+	z := &zoneGen{r: r}
+	for z.loc == nil {
+		if r.Intn(2) == 0 && len(holes()) > 0 {
+			z.name = pick(r, holes()...)
+		} else {
+			z.name = pick(r, zones.Names...)
+		}
+		z.loc = zones.Load(z.name)
+	}
+	z.days = zones.MissingMidnights(z.name)
+	b.sc.TZ = z.name
+	return z
 }
 
 // date draws a date: half of them days whose local midnight is missing in the zone, and their neighbours.
